@@ -205,3 +205,15 @@ add('SER',
     Rule('X-SER', '$w:i.iter().for_each(|s: &T| { $v:i.extend(&s.serialize()); });', 'serialize_into(&$w, &mut $v);', stmt_start=True),
     Rule('X-SER', 'T::size()', 'sample_size::<T>()'),
     Rule('X-SER', '$s:i.serialize()', 'serialize_one(&$s)'))
+
+# X-FSRC (unit fsrc): reader / parse idioms of file_source.rs
+add('FSRC',
+    Rule('X-FSRC', 'std::path::PathBuf', 'PathBufShim'),
+    Rule('X-FSRC', 'BufReader<std::fs::File>', 'FileReader'),
+    Rule('X-FSRC', 'vec![0; $n:e]', 'zero_bytes($n)'),
+    Rule('X-FSRC', '$f:p.read(&mut $b:i[..])', '$f.read_into(&mut $b)'),
+    Rule('X-FSRC', '$f:p.seek(std::io::SeekFrom::Start(0))', '$f.rewind()'),
+    Rule('X-FSRC', '$o:i.fill_from_iter($b:i.chunks_exact($ss:e).map(|d| T::parse(d).unwrap()) $_:c)', 'fill_from_parsed_chunks::<T>(&mut $o, &$b, $ss)'),
+    Rule('X-FSRC', '$b:p.chunks_exact($ss:e).map(|d| T::parse(d)).collect::<Result<Vec<_>>>()', 'parse_chunks::<T>(&$b, $ss)'),
+    Rule('X-FSRC', '$b:p.extend(&$s:i[..$n:e]);', 'extend_prefix(&mut $b, &$s, $n);', stmt_start=True),
+    Rule('X-FSRC', '$b:p.drain(0..($k:e));', 'drain_prefix(&mut $b, $k);', stmt_start=True))
